@@ -22,6 +22,7 @@ RULE = (
     "parsed too). Non-trivial: the output has >= 1 block construct and >= 1 hoisted call, or the program uses >= 5 statement kinds; "
     "distinct by sha1 of (AST, options)"
 )
+RULE += ' Also (complete enumeration on every run): every statement template of the grammar - 144 operand-position templates and 25 operand-free statements, each with a plain operand, with an operand that needs a temporary and with one that starts with a unary minus - in nine block contexts (alone, between statements, THEN, THEN-before-ELSE, ELSE, ELSE-IF arm, last ELSE, FOR body, IF inside FOR) under two option sets.'
 ASSUMPTIONS = [
     "statement grammar, reserved-word list and block rules of BASIC09 as encoded in vf/b09/parse.py (permissive about types, case, spacing, ':=' vs '=')",
 ]
